@@ -317,13 +317,23 @@ def load(
     if dataset is not None:
         phonon.dataset = dataset
 
-    fc = load_helper.select_and_extract_force_constants(
-        phonon,
-        fc=_fc,
-        force_constants_filename=force_constants_filename,
-        is_compact_fc=is_compact_fc,
-        log_level=log_level,
-    )
+    if (
+        _fc is None
+        and force_constants_filename is None
+        and (forces_in_dataset(_dataset) or force_sets_filename is not None)
+    ):
+        # Forces given by force_sets_filename or in phonopy_yaml precede
+        # 'FORCE_CONSTANTS' and 'force_constants.hdf5' searched in current
+        # directory (see priority in docstring).
+        fc = None
+    else:
+        fc = load_helper.select_and_extract_force_constants(
+            phonon,
+            fc=_fc,
+            force_constants_filename=force_constants_filename,
+            is_compact_fc=is_compact_fc,
+            log_level=log_level,
+        )
     if fc is not None:
         phonon.force_constants = fc
 
